@@ -1,11 +1,15 @@
-"""C14 — run_timeout stops only in a sound, resumable state."""
+"""C14 — run_timeout stops only in a sound, resumable state.
+
+Two halves: plain relations (Engine/Timeout.v; below) and lattice relations (LatEngine/LatTimeout.v; gen/c14_lat.py).
+Plain half, two kinds of histories: from a FRESH program value (run_timeout(k1); ..; run()) and from a program value that
+already went through a COMPLETED run and was then extended by the caller (run(); push; run_timeout(k); run())."""
 import json
 
-from .. import dl, engine_tie, gen_dl, lib, prog
+from .. import c14_lat, dl, engine_tie, gen_dl, lib, prog
 
 PROP = "C14"
 PROP_FILE = "Props/C14.v"
-PRELUDE = engine_tie.PRELUDE.replace("Engine.Strat.", "Engine.Strat Engine.Timeout.")
+PRELUDE = engine_tie.PRELUDE.replace("Engine.Strat.", "Engine.Strat Engine.Timeout Engine.Rerun.")
 
 
 def gen_cases(tier, seed):
@@ -21,7 +25,18 @@ def gen_cases(tier, seed):
         hist = [[k] for k in range(1, kmax + 1)]
         hist += [[rng.randint(1, 3), rng.randint(1, 3)] for _ in range(2 if tier == "quick" else 6)]
         hist += [[1, 1, 1]]
-        cases.append(dict(id="c14_%d" % i, prog=p, input=inp, hist=hist, agg=agg))
+        # histories on a program value that already completed a run: run(); push B into 1-2 relations (input or derived,
+        # the others untouched); run_timeout(k), k = 1..3; run()   (positive programs only)
+        rehist = []
+        if not agg:
+            f = gen_dl.gen_input(rng, p["rels"], style="small")[0]
+            names = [n for n, _, _ in p["rels"] if f.get(n)]
+            if names:
+                keep = rng.sample(names, min(len(names), rng.choice([1, 2])))
+                push = {n: f[n] for n in keep}
+                by_timeout = bool(rng.getrandbits(1))
+                rehist = [dict(push=push, k=k, first_by_run_timeout=by_timeout) for k in (1, 2, 3)]
+        cases.append(dict(id="c14_%d" % i, prog=p, input=inp, hist=hist, agg=agg, rehist=rehist))
     return cases
 
 
@@ -36,14 +51,33 @@ def script_for(inp, ks):
     return st
 
 
+RETFMT = "snaps.push(format!(\"{{\\\"__ret\\\":[[\\\"{}\\\"]]}}\", __r));"
+
+
+def rescript_for(inp, rr):
+    """set A; run() [or run_timeout(huge) == true]; push B; snap; run_timeout(k) with the clock armed for this call only; snap; run(); snap.
+    The virtual clock counts the readings of ONE Instant (created at the start of each run_timeout call while armed), so the
+    completed first run does not consume the budget of the interrupted call."""
+    st = [("set", inp)]
+    if rr["first_by_run_timeout"]:
+        st.append(("raw", "ascent::verif_hooks::arm_clock(true); let __r = p.run_timeout(std::time::Duration::from_secs(1000000)); ascent::verif_hooks::arm_clock(false); " + RETFMT))
+    else:
+        st += [("run",), ("raw", "let __r = true; " + RETFMT)]
+    st += [("push", rr["push"]), ("snap",),
+           ("raw", "ascent::verif_hooks::arm_clock(true); let __r = p.run_timeout(std::time::Duration::from_secs(%d)); ascent::verif_hooks::arm_clock(false); %s" % (rr["k"], RETFMT)),
+           ("snap",), ("run",), ("snap",)]
+    return st
+
+
 def tie(tier, seed, replay):
+    lat = c14_lat.tie_part(tier, seed)
     cases = gen_cases(tier, seed)
     texts = {c["id"]: dl.rust_program_text(c["prog"]) for c in cases}
     dumps = prog.front_run([(c["id"], "ascent", texts[c["id"]]) for c in cases])
     jobs = []
     for c in cases:
         jobs.append(dict(id=c["id"], text=dl.rust_program_text(dict(c["prog"], attrs=[])), attrs=c["prog"]["attrs"], macro="ascent",
-                         rels=c["prog"]["rels"], scripts=[script_for(c["input"], ks) for ks in c["hist"]]))
+                         rels=c["prog"]["rels"], scripts=[script_for(c["input"], ks) for ks in c["hist"]] + [rescript_for(c["input"], rr) for rr in c["rehist"]]))
     impl = prog.build_and_run("c14", jobs, features=("verif_hooks",))
     groups, gids, invs = [], [], {}
     for c in cases:
@@ -59,6 +93,14 @@ def tie(tier, seed, replay):
         ex = ["strat_fix std_interp %d%%nat %s %s" % (engine_tie.FUEL, strata, f0)]
         for ks in c["hist"]:
             ex.append("timeout_script std_interp std_swap %d%%nat %s %s (init_state %s)" % (engine_tie.FUEL, plan, dl.cnats(ks), f0))
+        if c["rehist"]:
+            push = c["rehist"][0]["push"]
+            fb = dl.coq_facts(engine_tie.facts_of_input(push, c["prog"]["rels"]), R)
+            fab = dl.coq_facts(engine_tie.facts_of_input(c["input"], c["prog"]["rels"]) + engine_tie.facts_of_input(push, c["prog"]["rels"]), R)
+            ex.append("strat_fix std_interp %d%%nat %s %s" % (engine_tie.FUEL, strata, fab))
+            for rr in c["rehist"]:
+                ex.append("match run_plan std_interp std_swap %d%%nat %s (init_state %s) with Some st => timeout_script std_interp std_swap %d%%nat %s %s (push_facts %s st) | None => None end"
+                          % (engine_tie.FUEL, plan, f0, engine_tie.FUEL, plan, dl.cnats([rr["k"]]), fb))
         groups.append(ex)
         gids.append(c["id"])
         invs[c["id"]] = {v: k for k, v in R.d.items()}
@@ -128,10 +170,71 @@ def tie(tier, seed, replay):
             elif diff or model is None:
                 mism.append(dict(case=cs, impl=[prog.canon_snap(s) if "__ret" not in s else s for s in snaps], model=str(model)[:2000], spec="implementation meets C14 on this history",
                                  kind="model_differs", known=None, what=diff or "model out of fuel"))
-    return dict(evaluations=sum(len(c["hist"]) for c in cases), distinct_nontrivial=len(distinct),
-                rule="random programs (3/4 positive, 1/4 stratified) compiled with #![generate_run_timeout] x one input x histories run_timeout(k) for k = 1..5 (8 thorough), random pairs (k1,k2), (1,1,1), each followed by run(); the hook's virtual clock makes run_timeout(k s) fire exactly at its k-th deadline check; after every interrupted call: inputs kept, every tuple derivable, true => full fixed point; after the final run(): the fixed point; distinct = (program, history)",
+    # ---- histories on a program value that completed a run and was extended: run(); push B; run_timeout(k); run()
+    nre = refired = 0
+    for c in cases:
+        v = vals.get(c["id"])
+        if not c["rehist"] or v is None or dumps.get(c["id"], {}).get("status") != "ok":
+            continue
+        inv = invs[c["id"]]
+        nh = len(c["hist"])
+        spec = engine_tie.decode_facts(v[1 + nh], inv)
+        if spec is None:
+            raise lib.Infra("spec oracle out of fuel")
+        sg = engine_tie.group_facts(spec, c["prog"]["rels"])
+        for m, rr in enumerate(c["rehist"]):
+            cs = dict(program=texts[c["id"]], input=c["input"], history="run() to completion%s; push; run_timeout(k); run()" % (" by run_timeout(1000000 s)" if rr["first_by_run_timeout"] else ""),
+                      pushed=rr["push"], timeout_in_virtual_seconds=rr["k"])
+            iv = impl.get(c["id"], [None] * (nh + len(c["rehist"])))[nh + m]
+            nre += 1
+            if iv is None or "snaps" not in iv:
+                mism.append(dict(case=cs, impl=iv, model=None, spec=None, kind="impl_violates_spec", known=None, what="history did not complete: %s" % json.dumps(iv)[:300]))
+                continue
+            sn = iv["snaps"]
+            first_ret = sn[0]["__ret"][0][0] == "true"
+            base = prog.rows_snap(sn[1])
+            ret = sn[2]["__ret"][0][0] == "true"
+            rows = prog.rows_snap(sn[3])
+            final = prog.canon_snap(sn[4])
+            refired += (not ret)
+            why = None
+            if not first_ret:
+                why = "run_timeout with a deadline that never strikes returned false"
+            for name, _, _ in c["prog"]["rels"]:
+                if why:
+                    break
+                got = rows[name]
+                if got[:len(base[name])] != base[name]:
+                    why = "after run(); push; run_timeout(%d): the rows of %s present before the call are not an unmodified prefix" % (rr["k"], name)
+                elif not set(got) <= set(sg[name][1]):
+                    why = "after run(); push; run_timeout(%d) (returned %s): %s holds tuples that are not derivable from the union of the inputs: %s" % (rr["k"], ret, name, sorted(set(got) - set(sg[name][1]))[:4])
+                elif ret and set(got) != set(sg[name][1]):
+                    why = "run(); push; run_timeout(%d) returned true but %s is not the full fixed point of the union of the inputs" % (rr["k"], name)
+                elif final[name][1] != sg[name][1]:
+                    why = "run(); push; run_timeout(%d); run(): %s differs from the least model of the union of the inputs (missing %s, extra %s)" % (
+                        rr["k"], name, [t for t in sg[name][1] if t not in final[name][1]][:4], [t for t in final[name][1] if t not in sg[name][1]][:4])
+                elif final[name][0] != len(final[name][1]) and len(set(base[name])) == len(base[name]):
+                    why = "run(); push; run_timeout(%d); run(): %s has %d rows for %d distinct tuples" % (rr["k"], name, final[name][0], len(final[name][1]))
+            distinct.add((c["id"], "rerun", rr["k"]))
+            if why:
+                mism.append(dict(case=cs, impl=[prog.canon_snap(x) if "__ret" not in x else x for x in sn], model=None, spec=sg, kind="impl_violates_spec", known=None, what=why))
+                continue
+            mv = v[2 + nh + m]
+            if mv == "None":
+                mism.append(dict(case=cs, impl="meets C14 on this history", model="out of fuel", spec=None, kind="model_differs", known=None, what="model out of fuel"))
+                continue
+            (mb, mrows), mfinal = mv[1][0][0], mv[1][1]
+            mg = engine_tie.group_facts([(inv[a], tuple(t)) for a, t in mrows], c["prog"]["rels"])
+            mf = engine_tie.group_facts([(inv[a], tuple(t)) for a, t in mfinal], c["prog"]["rels"])
+            ig = prog.canon_snap(sn[3])
+            if mb != ret or any(ig[name] != mg[name] or final[name] != mf[name] for name, _, _ in c["prog"]["rels"]):
+                mism.append(dict(case=cs, impl=[prog.canon_snap(x) if "__ret" not in x else x for x in sn], model=str(mv)[:2000], spec="implementation meets C14 on this history", kind="model_differs", known=None,
+                                 what="correspondence Engine/Timeout.v + Engine/Rerun.v vs generated code: run(); push; run_timeout(%d) (model returned %s, implementation %s); run()" % (rr["k"], mb, ret)))
+    return dict(evaluations=sum(len(c["hist"]) for c in cases) + nre + lat["evaluations"], distinct_nontrivial=len(distinct) + lat["distinct"],
+                rule="PLAIN HALF: random programs (3/4 positive, 1/4 stratified) compiled with #![generate_run_timeout] x one input x histories run_timeout(k) for k = 1..5 (8 thorough), random pairs (k1,k2), (1,1,1), each followed by run(); the hook's virtual clock makes run_timeout(k s) fire exactly at its k-th deadline check; after every interrupted call: inputs kept, every tuple derivable, true => full fixed point; after the final run(): the fixed point; "
+                     "AND (positive programs) histories on a program value that already COMPLETED a run: set A; run() [half of the time run_timeout(1000000 s) returning true]; push facts B into 1-2 relations (input or derived, the others untouched); run_timeout(k), k = 1..3, with the clock armed for that call only; run(): rows before the call kept as a prefix, every tuple derivable from A u B, final state = least model of A u B (Coq strat_fix on the union), rows = distinct tuples when the caller pushed no duplicate; model = Engine/Rerun.v push_facts + Engine/Timeout.v timeout_script from the state of the first run; distinct = (program, history).  " + lat["rule"],
                 samples=[dict(program=texts[c["id"]], input=c["input"], histories=c["hist"][:3]) for c in cases[:2]],
-                distribution=dict(programs=len(cases), interrupted_calls_that_returned_false=fired), mismatches=mism,
-                trusted_base=["virtual clock hook (ascent/src/verif_hooks.rs, feature verif_hooks) standing in for web_time::Instant; FRONT hook; generated crates"],
-                assumptions=["the real clock only decides WHICH deadline check fires; every choice is covered by the oracle in the model and enumerated up to k=5/8 in the tie"],
-                extra=dict(cases_skipped_model_too_slow=nskip))
+                distribution=dict(programs=len(cases), interrupted_calls_that_returned_false=fired, histories_after_a_completed_run=nre, of_which_interrupted=refired, **lat["distribution"]), mismatches=lat["mismatches"] + mism,
+                trusted_base=["virtual clock hook (ascent/src/verif_hooks.rs, feature verif_hooks) standing in for web_time::Instant; FRONT hook; generated crates"] + lat["trusted_base"],
+                assumptions=["the real clock only decides WHICH deadline check fires; every choice is covered by the oracle in the model and enumerated up to k=5/8 in the tie"] + lat["assumptions"],
+                extra=dict(cases_skipped_model_too_slow=nskip, **lat["extra"]))
